@@ -182,6 +182,32 @@ CHECKS = {
         "level_note": "cyclic graphs are outside the property; the load order is observed through a log the module bodies write",
         "assumptions": ["reference path resolver as in C18"],
     },
+    "C10": {
+        "engines": NATIVE,
+        "level": "exploration",
+        "rule": "self-checking members of 78 construct families (array/object literals incl. spreads, holes, computed keys, methods, "
+                "getters; argument lists of calls, methods, new, optional calls; parameter lists incl. defaults, rest, destructured; "
+                "template and tagged-template literals; switch cases; sequences of statements, calls, declarations, closures, classes, "
+                "distinct constants and property names; loop / if / try / function bodies whose length is the jump distance; nested "
+                "blocks and functions; binary, logical, comma, conditional, member, index and call chains; patterns; class members; "
+                "generator yields; enum members; string and array lengths) at sizes 0..40 dense, 2^k and 2^k+-1,+-2 for k=6..17, "
+                "250..260, 509..514, 65530..65540 and 70000, each evaluated sandwiched between live temporaries and variables at the "
+                "script top level and inside function, method and generator bodies. Every (family, context, n) triple is a distinct "
+                "program; it is non-trivial when the front end returned (accepted or refused) rather than the watchdog firing",
+        "exhaustive": "sizes 0..40 and every width boundary listed, for every family x context",
+        "floor": {"quick": 15000, "thorough": 40000},
+        "unit_timeout": {"default": 1500},
+        "technique": "runtime monitoring: closed-form oracle on self-checking generated programs across size sweeps, process-exit "
+                     "oracle in forked children, debug overflow checks as a sanitizer for narrowing casts, logical step budgets",
+        "level_text": "Every member must either produce the closed-form value the generator computed (with its live neighbours "
+                      "intact) or be refused by prepare() before running with a message naming a limit; a refusal of a sequence whose "
+                      "parts are each accepted alone, a wrong value, an error raised while running, a panic, a signal or an exhausted "
+                      "logical step budget is a violation.",
+        "level_note": "sizes are sampled (dense at the 8-bit and 16-bit widths), not all n; the harness profile enables "
+                      "overflow-checks and debug assertions, which a release build of tsrun does not have",
+        "assumptions": ["the helper functions H/HS/cnt (rolling hash, rest parameters, charCodeAt) behave correctly at the sizes used; "
+                        "they are themselves checked by the small members of every family"],
+    },
     "C11": {
         "engines": NATIVE,
         "level": "exploration",
